@@ -6,3 +6,12 @@ let rec add n m =
   match n with
   | O -> m
   | S p -> S (add p m)
+
+(** val sub : nat -> nat -> nat **)
+
+let rec sub n m =
+  match n with
+  | O -> n
+  | S k -> (match m with
+            | O -> n
+            | S l -> sub k l)
